@@ -31,6 +31,20 @@ def pick(pool, rng, k):
     return out[:max(k, 1)]
 
 
+def blocked_then_requested(ops, data=False):
+    """x half-closes or gets a passed write deadline, afterwards the OTHER side sends a KeyUpdate with update_requested
+    (data: and application data after it)"""
+    for i, o in enumerate(ops):
+        if o["op"] in ("CW", "WD"):
+            y = "s" if o["x"] == "c" else "c"
+            for j, p in enumerate(ops[i + 1:], i + 1):
+                if p["op"] in ("KU", "KUB", "UPS") and p["x"] == y and p["req"]:
+                    if not data or (p["op"] == "UPS" and p["n"] > 0) or any(
+                            q["op"] in ("W", "UPS") and q["x"] == y and q["n"] > 0 for q in ops[j + 1:]):
+                        return True
+    return False
+
+
 def run(ctx):
     rng = random.Random(ctx.seed * 7919 + 25)
     t, grid = rl.tables(ctx)
@@ -47,6 +61,15 @@ def run(ctx):
                      bursts=BURSTS, uprounds=ROUNDS, upsizes=[1, 16385], maxburst=1, workers=1 if ctx.quick else 8, timeout=900)
     burst = [s for s in burst if any(o["op"] in ("KUB", "UPL") for o in s["ops"])]
     scns = scns + burst
+    # third exploration: half-closed / write-blocked sides (CloseWrite, a passed write deadline): the side keeps reading while
+    # the other one sends data and key updates (requested and not), single or in runs, interleaved with data
+    _, half = rl.mc(ctx, "Record_MC_c25_half", classes=classes, sizes=[1, 16385], reads=[1, 32768],
+                    maxops=3 if ctx.quick else 4, maxw=2, maxku=2, maxmut=0, maxclose=1,
+                    bursts=[1, 3], uprounds=[3], upsizes=[1, 16385], maxburst=1, halfops=["CW", "WD"], maxhalf=1,
+                    # every ORDER of the calls matters here (block first, key update after): paths, not states
+                    paths=True, workers=8, timeout=1200)
+    half = [s for s in half if any(o["op"] in ("CW", "WD") for o in s["ops"])]
+    scns = scns + half
     deep = []
     if not ctx.quick:
         # random deep paths beyond the exhaustive bound
@@ -56,7 +79,7 @@ def run(ctx):
     for s in scns + deep:
         by_class[s["class"]].append(s["ops"])
     opkinds = {o["op"] for s in scns for o in s["ops"]}
-    if not {"W", "R", "KU", "M", "C", "KUB", "UPL"} <= opkinds or any(not by_class[c] for c in classes):
+    if not {"W", "R", "KU", "M", "C", "KUB", "UPL", "UPS", "CW", "WD"} <= opkinds or any(not by_class[c] for c in classes):
         raise vlib.Machinery("Record_MC: vacuous exploration (operations %s, classes %s)" % (sorted(opkinds), {c: len(v) for c, v in by_class.items()}))
     if not any(o["op"] == "KU" and o["req"] for ops in by_class["tls13"] for o in ops):
         raise vlib.Machinery("Record_MC: no key update with update_requested explored")
@@ -71,7 +94,14 @@ def run(ctx):
     for c in cells:
         # only TLS 1.3 has key updates and there are few TLS 1.3 suites: give those cells three times the scenarios
         picks = pick(by_class[c["class"]], rng, per * 3 if c["class"] == "tls13" else per)
+        hp = [s["ops"] for s in half if s["class"] == c["class"]]
+        picks += rng.sample(hp, min(2 if ctx.quick else 12, len(hp)))
         if c["class"] == "tls13":
+            # a half-closed / write-blocked side that is then sent requested key updates and data by the other side
+            hk = [ops for ops in hp if blocked_then_requested(ops)]
+            picks += rng.sample(hk, min(6 if ctx.quick else 40, len(hk)))
+            hd = [ops for ops in hk if blocked_then_requested(ops, data=True)]     # ... and data after the key update
+            picks += rng.sample(hd, min(6 if ctx.quick else 40, len(hd)))
             # every burst length and every upload length on every TLS 1.3 cell
             pool = by_class["tls13"]
             for k in BURSTS:
@@ -99,7 +129,7 @@ def run(ctx):
     if not out["rej"]:    # (with reproduced rejections the verdict stands on those)
         rl.need(out["stats"], ["Init.hs", "Write", "Write.multi", "Write.split", "Write.zero", "Read.data", "Read.partial", "Read.zero",
                                "Read.timeout", "Read.eof", "Read.error", "Read.alert", "Read.sticky", "Read.kuresp", "KeyUpdate", "Close",
-                               "Mutate", "Nonce"], "C25")
+                               "Mutate", "Nonce", "CloseWrite", "WriteDeadline", "Read.kublocked", "Read.halfclosed", "Write.blocked"], "C25")
     if not out["rej"]:
         # long runs of key updates without application data from that side must really have been read through
         longest = 0
